@@ -1217,3 +1217,127 @@ def vc_build_matching_path(prog, depth_given=False):
     rep = verify_function(prog, fv, setup, goals, models=K.base_models(), hooks=hooks, loops=loops,
                           name=f"BaseMatcher._build_matching_path[max_depth {'given' if depth_given else 'None'}]")
     return fv, rep
+
+
+# ============================================================================================ BaseMatcher.node_path_to_only_nodes
+def vc_only_nodes(prog, allow_jumps=False):
+    """BaseMatcher.node_path_to_only_nodes for a state sequence of ARBITRARY length whose elements are node labels or edges
+    (pairs of labels), in any mix (C04: the nodes-only view of a walk is the walk's node sequence).  Foreach rule with the loop
+    invariant `prev_state = preceding element`; per element, for an ARBITRARY last output node p:
+      * a state equal to its predecessor adds nothing (a stay is not a move),
+      * a node state adds itself iff it differs from p,
+      * an edge attached to p adds exactly its other end (nothing for a self-loop), whichever way round the edge is stored,
+      * an edge not attached to p: the documented exception without allow_jumps, both ends in order with allow_jumps,
+      * prev_node is the last node of the output afterwards (the invariant the next element relies on),
+    and the output starts with the node / both ends of the first state."""
+    fv = prog.func(K.BASE, 'BaseMatcher.node_path_to_only_nodes')
+    st = {}
+    IntS, BoolS = z3.IntSort(), z3.BoolSort()
+    isn = z3.Function('state_is_node', IntS, BoolS)
+    sa, sb = z3.Function('state_l1', IntS, Label), z3.Function('state_l2', IntS, Label)
+    n = I('len_state_path')
+
+    def elem(it, j, tag):
+        j = to_z3(j)
+        if it.ctx.choice(2, tag + '-is-edge') == 0:
+            it.ctx.assume(isn(j))
+            return sa(j)
+        it.ctx.assume(z3.Not(isn(j)))
+        return (sa(j), sb(j))
+
+    def same_as(x, j):
+        """value equality of an interpreter value with element j of the sequence"""
+        j = to_z3(j)
+        if isinstance(x, tuple) and len(x) == 2 and all(z3.is_expr(v) and v.sort() == Label for v in x):
+            return z3.And(z3.Not(isn(j)), x[0] == sa(j), x[1] == sb(j))
+        if z3.is_expr(x) and x.sort() == Label:
+            return z3.And(isn(j), x == sa(j))
+        return z3.BoolVal(False)
+
+    def setup(ctx, it):
+        st.clear()
+        ctx.assume(n >= 1)
+        m = K.mk_matcher('BaseMatcher')
+        sp = Obj('StatePath')
+        st.update(m=m, sp=sp)
+        return [m, sp], {'allow_jumps': allow_jumps}
+
+    def h_index(it, o, i):
+        return elem(it, i, 'first' if eq(to_z3(i), z3.IntVal(0)) is True or z3.is_true(z3.simplify(to_z3(i) == 0)) else 'indexed')
+
+    def h_slice(it, o, lo, hi):
+        if not (isinstance(o, Obj) and o.cls == 'StatePath') or hi is not None or lo is None or not z3.is_true(z3.simplify(to_z3(lo) == 1)):
+            raise Unsupported("slice of the state sequence other than [1:]")
+        return Obj('StateTail')
+
+    def h_indexed(it, o):
+        if not (isinstance(o, Obj) and o.cls == 'StateTail'):
+            raise Unsupported(f"iteration over {o}")
+        return n - 1, (lambda k: elem(it, k + 1, 'state'))
+
+    def l_init(it, env):
+        ps, pn, nodes = env.get('prev_state'), env.get('prev_node'), env.get('nodes')
+        g = [('prev_state-starts-as-the-first-state', same_as(ps, 0))]
+        first_nodes = [ps] if not isinstance(ps, tuple) else list(ps)
+        g.append(('output-starts-with-the-node-or-both-ends-of-the-first-state',
+                  b2z(isinstance(nodes, list) and len(nodes) == len(first_nodes) and all(eq(x, y) is True for x, y in zip(nodes, first_nodes)))))
+        g.append(('prev_node-starts-as-the-last-node-of-the-output', b2z(isinstance(nodes, list) and len(nodes) >= 1 and eq(pn, nodes[-1]) is True)))
+        return g
+
+    def l_inv(it, env):
+        return [('prev_state-is-the-preceding-element', same_as(env.get('prev_state'), env['$idx']))]
+
+    def l_havoc(it, env, pre):
+        k = env['$idx']
+        env['prev_state'] = elem(it, k, 'prev')
+        env['prev_node'] = st['p'] = it.ctx.fresh('last_output_node', Label)
+        st['k'] = k
+        it.ctx.only_nodes_state = (st['p'], k)      # raises_ok runs after the exploration: per-path state lives on the path's context
+
+    def l_body_post(it, env, pre, x, events, how):
+        apps = [e for e in events if e.kind == 'append']
+        acc = env.get('nodes')
+        p, k = st['p'], st['k']
+        j = k + 1
+        a, b = sa(j), sb(j)
+        same = z3.Or(z3.And(isn(j), isn(k), sa(j) == sa(k)), z3.And(z3.Not(isn(j)), z3.Not(isn(k)), sa(j) == sa(k), sb(j) == sb(k)))
+        attached = z3.Or(a == p, b == p)
+        other = z3.If(a == p, b, a)
+        want = z3.If(same, 0, z3.If(isn(j), z3.If(a != p, 1, 0), z3.If(attached, z3.If(other != p, 1, 0), 2)))
+        ob = lambda nm, g: it.ctx.oblige('only-nodes:' + nm, b2z(g), kind='post')
+        ob('appends-go-to-the-returned-list', isinstance(acc, Accum) and all(e.acc is acc for e in apps))
+        ob('number-of-nodes-added(stay: none; node: itself iff new; attached edge: the other end iff it moves; jump: both ends)', want == len(apps))
+        vals = [e.value for e in apps]
+        okv = all(z3.is_expr(v) and v.sort() == Label for v in vals)
+        ob('added-values-are-node-labels', okv)
+        if okv and len(vals) == 1:
+            ob('the-added-node-is-the-node-state-or-the-other-end-of-the-attached-edge', vals[0] == z3.If(isn(j), a, other))
+        if okv and len(vals) == 2:
+            ob('a-jump-adds-both-ends-in-the-stored-order', z3.And(vals[0] == a, vals[1] == b))
+            ob('a-jump-only-when-allowed', bool(allow_jumps))
+        pn = env.get('prev_node')
+        last = vals[-1] if (okv and vals) else p
+        ob('prev_node-is-the-last-node-of-the-output', z3.is_expr(pn) and pn.sort() == Label and (pn == last))
+
+    def raises_ok(ex, ctx):
+        # the documented exception: an edge that is not attached to the last node, jumps not allowed
+        if allow_jumps or 'does not have as previous node' not in ex.msg or not hasattr(ctx, 'only_nodes_state'):
+            return False
+        p, k = ctx.only_nodes_state
+        j = k + 1
+        s = z3.Solver()
+        s.set('timeout', 5000)
+        s.add(*[to_z3(c) for c in ctx.pc])
+        s.add(z3.Or(isn(j), sa(j) == p, sb(j) == p, z3.And(z3.Not(isn(k)), sa(j) == sa(k), sb(j) == sb(k))))
+        return s.check() == z3.unsat
+    import ast
+    loops_ast = sorted([x for x in ast.walk(fv.node) if isinstance(x, (ast.For, ast.While))], key=lambda x: (x.lineno, x.col_offset))
+    loops = {(fv.qual, i): {'init': l_init, 'inv': l_inv, 'havoc': l_havoc, 'body_post': l_body_post} for i, x in enumerate(loops_ast)}
+
+    def goals(ctx, res):
+        return [('only-nodes:result-is-the-accumulated-list', b2z(isinstance(res, Accum) and len(res.appended) == 0)),
+                ('only-nodes:exactly-one-loop-over-the-rest-of-the-sequence', b2z(len(loops_ast) == 1 and any(e.kind == 'loop-range' and eq(to_z3(e.lo), z3.IntVal(0)) is not False for e in ctx.events)))]
+    hooks = {('index', 'StatePath'): h_index, ('slice', 'Obj'): h_slice, ('indexed', 'Obj'): h_indexed}
+    rep = verify_function(prog, fv, setup, goals, models=dict(K.base_models()), hooks=hooks, loops=loops, raises_ok=raises_ok,
+                          name=f"BaseMatcher.node_path_to_only_nodes[{'jumps allowed' if allow_jumps else 'no jumps'}]")
+    return fv, rep
